@@ -527,6 +527,42 @@ func c06BinaryRun(c *fw.Ctx, pool []poolVal, i int64) {
 	if variantStr(a) != sa || variantStr(b) != sb {
 		c.Violation("operator-mutates-operand:"+op, "%s changed an operand: %s -> %s, %s -> %s", desc, sa, variantStr(a), sb, variantStr(b))
 	}
+	// the SAME variant object as both operands (x op x): still the arithmetic of two equal values;
+	// for membership, the looked-up value being the very object stored in the list
+	if pa.label == pb.label {
+		x := pa.mk()
+		sx := variantStr(x)
+		refSame := refBinary(op, safe, pa.mk(), pa.mk())
+		if op == "GetElement" || op == "In" {
+			refSame = refBinary(op, safe, x, x)
+		}
+		var r2 *variants.Variant
+		var err2 error
+		pv2 := fw.Try(func() { r2, err2 = callBinary(opsManager(safe), op, x, x) })
+		c.Eval(1)
+		if msg := c06Compare(refSame, r2, err2, pv2); msg != "" {
+			c.Violation("same-object-operands:"+op+":"+tn(x.Type()), "%s %s(x, x) with x = %s passed as BOTH operands: %s", mgrName(safe), op, pa.label, msg)
+		}
+		if variantStr(x) != sx && pv2 == nil {
+			c.Violation("operator-mutates-operand:"+op, "%s %s(x, x) with x = %s changed x to %s", mgrName(safe), op, pa.label, variantStr(x))
+		}
+	}
+	if a.Type() == variants.Array && op == "In" {
+		// the value looked up is the very element object held by the list
+		for _, e := range a.AsArray() {
+			if e == nil {
+				continue
+			}
+			refEl := refBinary(op, safe, a, e.Clone())
+			var r3 *variants.Variant
+			var err3 error
+			pv3 := fw.Try(func() { r3, err3 = callBinary(opsManager(safe), op, a, e) })
+			c.Eval(1)
+			if msg := c06Compare(refEl, r3, err3, pv3); msg != "" {
+				c.Violation("same-object-operands:In:element", "%s In(%s, its own element object %s): %s", mgrName(safe), pa.label, variantStr(e), msg)
+			}
+		}
+	}
 	if ref.kind != "open" {
 		c.Nontrivial()
 	}
